@@ -331,7 +331,7 @@ def unitSeconds (u : List Char) : Option Nat :=
   else none
 
 /-- the part of `humantime::parse_duration` (2.3.0) the model covers: `"0"`, or ONE component `<digits*><unit>` with a unit
-    of whole seconds (no digits = 0, as in the real parser; `n * unit` must fit u64).  Everything else is `none`; the real
+    of whole seconds (the first character must be a digit: `parse_first_char`; `n * unit` must fit u64).  Everything else is `none`; the real
     parser also accepts several components, whitespace, fractions and sub-second units — the correspondence run does not
     generate those, and a value so large that `utc_now() - older_than` overflows makes the real hook panic. -/
 def parseDuration (s : List Char) : Option Int :=
@@ -340,7 +340,7 @@ def parseDuration (s : List Char) : Option Int :=
     match unitSeconds (s.dropWhile Char.isDigit) with
     | none => none
     | some k =>
-      match (if s.takeWhile Char.isDigit = [] then some 0 else C33.parseBody (s.takeWhile Char.isDigit)) with
+      match C33.parseBody (s.takeWhile Char.isDigit) with
       | none => none
       | some n => if n * k ≤ C33.u64Max then some ((n * k : Nat) : Int) else none
 
